@@ -79,6 +79,13 @@ CHECKS["C18"] = ("Coq theorems for all layers: self comparison reports nothing; 
     "Model of compare_diagnostic_layers' classification tied to the tool by correspondence on generated layers x every single edit of the property text; oracle: exactly that kind of change for exactly that service and the changed property listed; rows of print_dl_metrics.",
     TB + "PARTIAL: attribute-level parameter comparison (compare_parameters) and metrics are correspondence/oracle only; list/find/decode sub-commands not covered (their logic is C06's).",
     "Rocq/Coq proof (classification lemmas by induction over the service lists) + single-edit enumeration", "DESIGN.md §3 C18")
+CHECKS["C10"] = ("Coq theorems for all link databases / references / layers: a lookup yields the object carrying the id (ids unique per fragment); an ODXLINK reference binds to what the innermost of its fragments binding the id holds, a DOCREF reference to the referenced fragment alone; "
+    "unresolvable iff no fragment binds the id; typed references bind only to the expected kind; imported ids become visible in the importing layer's fragments, never shadow a bound id and change no other fragment; only shared-data layers are imported; "
+    "a short-name reference binds to the unique carrier of the name in its explicit list / in the inherited view (C09 model); strict loading succeeds only if every reference is so bound; retarget_snrefs rebinds exactly the references of the target and its ancestors. "
+    "Model tied to odxtools by correspondence on generated multi-container databases with colliding ids and names (15 reference kinds as ID-REF with/without DOCREF or SNREF, imports, injected dangling / leaking / ambiguous references, retargeting, direct resolve calls), "
+    "plus a declarative oracle reading the property text.",
+    TB + "PARTIAL: aliasing (the shallow-copy leak fixed in fa48f3b) cannot be stated about an immutable model; it is carried by the correspondence / oracle (leak scenarios are generated on purpose). Reference kinds not generated: state charts, audiences, env-data, DTC, SDG captions, libraries, sub-components, comparam refs (C15).",
+    "Rocq/Coq proof (fold characterisation of dictionary updates, list induction for resolve) + correspondence + declarative oracle", "DESIGN.md §3 C10")
 NA_REASON = "check not built yet in this round (work in progress; DESIGN.md §6 gives the order of work)"
 def main():
     checks = []
